@@ -126,6 +126,16 @@ def schemata():
         rule(part, '&tel { -p(X) | > r(X) } :- q(X).')
         rule(part, '&tel { > -p(X) & ~ -r(X) } :- q(X), not a.')
         rule(part, 's(X) :- d(X), not &tel { < -p(X) }.\n-p(X) :- q(X), not a.')
+    # atoms with string / tuple / function arguments inside formulas; a body formula without temporal operator means its atom, so the instances may be
+    # written with plain literals (a reference that does not go through the theory at all)
+    pre = 'e(""). e("a"). e((1,2)). e(f(1)).\nqs(X) :- e(X), q(1), X != "a".\nqs("a") :- q(2).\n'
+    vals = ['""', '"a"', '(1,2)', 'f(1)']
+    for part in ('always', 'initial', 'dynamic'):
+        S.append((part, pre + 's2(X) :- e(X), not not &tel { qs(X) }.', pre + '\n'.join('s2(%s) :- not not qs(%s).' % (v, v) for v in vals)))
+        S.append((part, pre + 's2(X) :- e(X), not &tel { qs(X) | a }.', pre + '\n'.join('s2(%s) :- not qs(%s), not a.' % (v, v) for v in vals)))
+        S.append((part, pre + ':- e(X), &tel { qs(X) & a }.', pre + '\n'.join(':- qs(%s), a.' % v for v in vals)))
+        S.append((part, pre + '&tel { ps(X) | a } :- e(X), qs(X).', pre + '\n'.join('ps(%s) ; a :- qs(%s).' % (v, v) for v in vals)))
+        S.append((part, pre + 's2(X) :- e(X), not &tel { > qs(X) }.', pre + '\n'.join('s2(%s) :- not &tel { > qs(%s) }.' % (v, v) for v in vals)))
     return S
 
 
